@@ -149,6 +149,92 @@ def large_batch(ctx: Ctx, F) -> None:
                                "in_one_call": whole[i].item() if whole.shape == parts.shape else None, "in_chunks": parts[i].item()})
 
 
+def long_lived_hedger(ctx: Ctx, F) -> None:
+    """The hedger's P&L and portfolio value ARE the identity evaluated on the instruments' CURRENT prices, the hedge it computes
+    NOW, their current cost rates and the derivative's current payoff - for one hedger object used again and again: on the same
+    paths after the contract was re-struck, a clause added, the cost rate changed, the inputs replaced; after a call that raised
+    half-way and a new simulation.  Reference for every step: pl() of the public pieces (compute_hedge of a FRESH hedger with the
+    same model, the stacked spots, the costs, payoff())."""
+    from pfhedge.instruments import BrownianStock, EuropeanOption, LookbackOption
+    from pfhedge.nn import BlackScholes, Hedger, Naked
+    dt = torch.float64
+
+    class Lin(torch.nn.Module):
+        def __init__(self, w, two=False):
+            super().__init__()
+            self.w, self.two = w, two
+
+        def forward(self, x):
+            y = torch.tanh((x * torch.tensor(self.w[: x.size(-1)], dtype=x.dtype)).sum(-1, keepdim=True))
+            return y if not self.two else torch.cat([y, 0.5 - y * y], dim=-1)
+
+    def reference(model, inputs, d, hedge):
+        fresh = Hedger(model, list(inputs))
+        hs = hedge if hedge is not None else [d.ul()]
+        unit = fresh.compute_hedge(d, hedge=hedge)
+        spot = torch.stack([h.spot for h in hs], dim=1)
+        cost = [h.cost for h in hs]
+        return F.pl(spot, unit, cost=cost, payoff=d.payoff()), F.pl(spot, unit, cost=cost)
+
+    from pfhedge.features import FeatureList
+    for mname in ("bs", "lin", "lin-prev", "lin2", "lin2-prev"):
+        torch.manual_seed(ctx.seed + 31)
+        stock = BrownianStock(cost=1e-3, dt=0.25, dtype=dt)
+        d = EuropeanOption(stock, maturity=1.0, strike=1.0)
+        listed = LookbackOption(stock, maturity=1.0, strike=1.1)
+        listed.list(lambda x: x.ul().spot * 0.25 + 0.05, cost=5e-4)
+        if mname == "bs":
+            model = BlackScholes(d); inputs = [str(f) for f in model.inputs()]
+        else:
+            model = Lin([0.5, -0.25, 0.125, 0.75], two=mname.startswith("lin2")); inputs = ["log_moneyness", "time_to_maturity"] + (["prev_hedge"] if mname.endswith("prev") else [])
+        hedger = Hedger(model, list(inputs))
+        d.simulate(n_paths=4)
+        steps = [("first use", lambda: None),
+                 ("the contract re-struck on the same paths", lambda: setattr(d, "strike", 1.125)),
+                 ("a clause added", lambda: d.add_clause("cap", lambda dd, p: p.clamp(max=0.0625))),
+                 ("the cost rate changed", lambda: setattr(stock, "cost", 4e-3)),
+                 ("a new simulation of the same size", lambda: d.simulate(n_paths=4)),
+                 ("a call that raised half-way, then a new simulation", "abort"),
+                 ("the inputs replaced by others of the same width", lambda: setattr(hedger, "inputs", FeatureList(["moneyness", "expiry_time"] + (["prev_hedge"] if mname.endswith("prev") else []))) if mname != "bs" else None)]
+        cur_inputs = list(inputs)
+        for label, act in steps:
+            if act == "abort":
+                class Fault(Exception):
+                    pass
+
+                def boom(module, args):
+                    raise Fault()
+                h_ = hedger.model.register_forward_pre_hook(boom)
+                try:
+                    hedger.compute_pl(d, hedge=None if not mname.startswith("lin2") else [stock, listed])
+                except Fault:
+                    pass
+                finally:
+                    h_.remove()
+                d.simulate(n_paths=4)
+            else:
+                act()
+                if label.startswith("the inputs") and mname != "bs":
+                    cur_inputs = ["moneyness", "expiry_time"] + (["prev_hedge"] if mname.endswith("prev") else [])
+            for hedge in ((None,) if not mname.startswith("lin2") else ([stock, listed],)):
+                try:
+                    with torch.no_grad():
+                        got_pl = hedger.compute_pl(d, hedge=hedge)
+                        got_pf = hedger.compute_portfolio(d, hedge=hedge)
+                        want_pl, want_pf = reference(model, cur_inputs, d, hedge)
+                except Exception as e:
+                    ctx.violation("hedger:long-lived:raises", f"compute_pl of a long-lived hedger raised {type(e).__name__} after {label}", {"model": mname, "error": repr(e)[:200]})
+                    continue
+                ctx.count(("long-lived", mname, label, hedge is not None), n=1)
+                for what, got, want in (("P&L", got_pl, want_pl), ("portfolio value", got_pf, want_pf)):
+                    if got is None:
+                        continue
+                    if got.shape != want.shape or not torch.equal(got, want):
+                        ctx.violation(f"hedger:long-lived:{what}", f"the {what} reported by a long-lived hedger after [{label}] is not the identity on the current prices, hedge, costs and payoff",
+                                      {"model": mname, "hedge": "default" if hedge is None else "stock + listed option", "reported": got.tolist(), "identity": want.tolist()})
+                        break
+
+
 def check(ctx: Ctx) -> None:
     import pfhedge.nn.functional as F
     from checks import hedge_common
@@ -180,6 +266,7 @@ def check(ctx: Ctx) -> None:
 
     double_precision(ctx, F)
     large_batch(ctx, F)
+    long_lived_hedger(ctx, F)
     hedge_common.replay_hedger(ctx, focus="C01")
 
     from checks import suite_oracles
